@@ -2,10 +2,26 @@
    runs of the real code (state before / after the call, shadow CropSharedVars, oracle values) and
    compares every output bit for bit. *)
 From Coq Require Import ZArith List Bool Floats.
-From Hermes Require Import Num CropModel.
+From Hermes Require Import Num CropModel CropNModel.
 Import ListNotations.
 
+(* one evaluation of the N-content functions: inputs with oracle values, the arguments the harness passed to
+   Go's math functions, GEHMIN/GEHMAX before and after *)
+Record nc_obs := { nco_in : nc_in (T:=float); nco_a1 : float; nco_a2 : float;
+                   nco_min0 : float; nco_max0 : float; nco_o_min : float; nco_o_max : float }.
+
+(* 1 = GEHMIN/GEHMAX differ, 2 = the model would pass another argument to Exp / Pow than the harness did *)
+Definition nc_check (o : nc_obs) : nat :=
+  let x := nco_in o in
+  let '(mn, mx) := match ncontent x with Some v => v | None => (nco_min0 o, nco_max0 o) end in
+  let '(a1, a2) := nc_args x in
+  ((if float_same mn (nco_o_min o) && float_same mx (nco_o_max o) then 0 else 1)
+   + (if float_same a1 (nco_a1 o) && float_same a2 (nco_a2 o) then 0 else 2))%nat.
+
 Record c09_obs := {
+  (* N content functions, N concentrations after the uptake, partition / death-rate tables *)
+  ob_ncs : list nc_obs; ob_nq : nq_in (T:=float) (* nq_sumpe is filled in from ob_o_pe *);
+  ob_o_gehob : float; ob_o_wugeh : float; ob_pro : list (list float); ob_dead : list (list float);
   (* stage *)
   ob_si : stage_in (T:=float); ob_k0 : nat; ob_sum : list float; ob_dev : list Z; ob_phyllo : float;
   ob_o_k : nat; ob_o_sum : list float; ob_o_dev : list Z; ob_o_phyllo : float;
@@ -31,7 +47,8 @@ Fixpoint zs_same (a b : list Z) : bool :=
 (* bitmask of the groups that differ:
    1 stage index / SUM / DEV / PHYLLO, 2 REDUK, 4 organ masses, rates, dead mass, LAI, PESUM,
    8 assimilate pool / OBMAS / WUMAS, 16 rooting depth, 32 N uptake / fixation,
-   64 bookkeeping (growth flag, argument of exp, number of uptake layers) *)
+   64 bookkeeping (growth flag, argument of exp, number of uptake layers),
+   128 GEHOB / WUGEH after the uptake, 256 an evaluation of the N-content functions *)
 Definition c09_check (o : c09_obs) : nat :=
   let b (ok : bool) (v : nat) := if ok then 0%nat else v in
   let s0 := {| st_k := ob_k0 o; st_sum := ob_sum o; st_dev := ob_dev o; st_dates := ob_dev o; st_phyllo := ob_phyllo o |} in
@@ -43,7 +60,9 @@ Definition c09_check (o : c09_obs) : nat :=
   let in_exp := PrimFloat.ltb (ob_gehob o) (ob_gehmin o) && negb (PrimFloat.leb (ob_gehob o) minin) in
   let reduk_ok := if gr then float_same (reduk_of (ob_gehob o) (ob_gehmin o) (ob_ngefkt1 o) (ob_e o)) (ob_o_reduk o) else true in
   let arg_ok := if gr && in_exp then float_same (reduk_arg (ob_gehob o) (ob_gehmin o) minin) (ob_earg o) else true in
-  let os1 := organs_day (ob_oi o) (ob_os o) in
+  (* the partition and death-rate rows are looked up in the full tables by the stage index *)
+  let oi := organ_in_of_tables (ob_pro o) (ob_dead o) (ob_o_k o) (ob_oi o) in
+  let os1 := organs_day oi (ob_os o) in
   let organs_ok := if gr then
        floats_same (os_worg os1) (ob_o_worg o) && floats_same (os_gorg os1) (ob_o_gorg o)
        && floats_same (os_dgorg os1) (ob_o_dgorg o) && floats_same (os_wdorg os1) (ob_o_wdorg o)
@@ -59,11 +78,28 @@ Definition c09_check (o : c09_obs) : nat :=
   let uptake_ok := floats_same pe (ob_o_pe o) && float_same nfix (ob_o_nfix o) in
   let book_ok := Bool.eqb gr (ui_grown (ob_ui o)) && arg_ok
                  && Z.eqb (Z.max 0 (uptake_layers (ob_ui o))) (Z.of_nat (length (ob_o_pe o))) in
-  (b stage_ok 1 + b reduk_ok 2 + b organs_ok 4 + b pool_ok 8 + b root_ok 16 + b uptake_ok 32 + b book_ok 64)%nat.
+  let q := ob_nq o in
+  let nq := {| nq_zrk := nq_zrk q; nq_wumalt := nq_wumalt q; nq_obalt := nq_obalt q; nq_gehalt := nq_gehalt q;
+               nq_wumas := nq_wumas q; nq_obmas := nq_obmas q; nq_worg3 := nq_worg3 q; nq_wugeh := nq_wugeh q;
+               nq_wgmax := nq_wgmax q; nq_pesum := nq_pesum q; nq_sumpe := sum_list (ob_o_pe o); nq_nfix := nq_nfix q |} in
+  let '(geh, wug) := nquota nq in
+  let nq_ok := float_same geh (ob_o_gehob o) && float_same wug (ob_o_wugeh o) in
+  let nc_ok := forallb (fun c => Nat.eqb (nc_check c) 0) (ob_ncs o) in
+  (b stage_ok 1 + b reduk_ok 2 + b organs_ok 4 + b pool_ok 8 + b root_ok 16 + b uptake_ok 32 + b book_ok 64
+   + b nq_ok 128 + b nc_ok 256)%nat.
 
 Fixpoint c09_mismatches (i : nat) (l : list c09_obs) : list (nat * nat) :=
   match l with
   | [] => []
   | c :: r => let v := c09_check c in
               if Nat.eqb v 0 then c09_mismatches (S i) r else (i, v) :: c09_mismatches (S i) r
+  end.
+
+(* the decimal tables the theorems are about (text of the parameter files) denote, at binary64, exactly the
+   floats the real readers put into g.PRO / g.DEAD *)
+Fixpoint tables_same (t : list (list (Z * nat))) (h : list (list float)) : bool :=
+  match t, h with
+  | [], [] => true
+  | r :: t', hr :: h' => floats_same (dec_row (T:=float) r) hr && tables_same t' h'
+  | _, _ => false
   end.
